@@ -702,7 +702,7 @@ lessThanEqual(const Vec4<T> &v, const object &obj)
         T x = extract<T>(t[0]);
         T y = extract<T>(t[1]);
         T z = extract<T>(t[2]);
-        T w = extract<T>(t[2]);
+        T w = extract<T>(t[3]);
         setValue(res,x,y,z,w);
     }
     else
